@@ -37,7 +37,8 @@ def check(run: Run, prog: Program, model: Model, tier: str) -> None:
         "arm's kind agrees with the declaration guard (otherwise the inlined __call__ raises) and with the "
         "validator's type guard; list/dict arms recurse over every member through an unfiltered comprehension and "
         "keep keys; every other kind reaches the final `raise ValueError`; no other exception class can escape "
-        "(explicit raises of inlined callees and partial operations under the established kinds).")
+        "(explicit raises of inlined callees and partial operations under the established kinds)."
+        " Two members deep, the schema of member j is the conversion of member j; a plain value is refused only for a documented trait; the float validator keeps the documented tolerance.")
     run.rule_text = ("one obligation per (input kind, clause); non-trivial = needed inlining of the schema constructor / "
                      "element-fact propagation through the comprehension")
     run.trusted += ["partial-operation table", "uuid.UUID.version exists on every UUID"]
